@@ -143,6 +143,9 @@ Definition xerr_class (e : xerr) (viac : bool) : xclass :=
   (* trap: "invalid signal names shall not be considered an error and shall
      not cause the shell to abort"; non-zero status *)
   | XTrapBadSignal => XSoft 1
+  (* inside eval / a dot script the innermost built-in decides: a special built-in run
+     through `command` fails softly *)
+  | XEvalCommandSoft | XDotCommandSoft => XSoft 1
   (* the status of a command substitution in an operand of export is lost *)
   | XExportSubstFails => XSoft 0
   end.
